@@ -172,12 +172,12 @@ class Exec:
         # flag variables carry the truth value their definition had WHEN IT WAS EXECUTED (the guard's state may have changed since)
         atom, pol = flow.strip_cond(fn, nid, follow=False)
         n = fn.nodes[atom]
-        if n["k"] == "ref" and n.get("dk") == "local" and n["name"] in st.flags:
-            val = st.flags[n["name"]]
-            return (val if pol else self._negv(val)), [], []
-        if n["k"] == "call" and n.get("inl_ret_var") and n["inl_ret_var"] in st.flags:
-            val = st.flags[n["inl_ret_var"]]
-            return (val if pol else self._negv(val)), [], []
+        fname = n["name"] if (n["k"] == "ref" and n.get("dk") == "local") else n.get("inl_ret_var") if n["k"] == "call" else None
+        if fname is not None and fname in st.flags:
+            val, on_t, on_f = st.flags[fname]
+            if pol:
+                return val, on_t, on_f
+            return self._negv(val), on_f, on_t
         if depth < 6 and ((n["k"] == "ref" and n.get("dk") == "local") or (n["k"] == "call" and n.get("inl_ret_var"))):
             # not defined on this path by a tracked definition: fall back to the (unique) defining expression
             atom2, pol2 = flow.strip_cond(fn, atom)
@@ -224,12 +224,15 @@ class Exec:
                     on_t = [(a, b)]
                 else:
                     on_f = [(a, b)]
-                if self.scheme == "hazard_eras" and op == "==" and (
+                if self.scheme == "hazard_eras" and (
                         (flow.has_src(fn, c[0], "load:era_clock") and flow.has_src(fn, c[1], "call:get_era")) or
                         (flow.has_src(fn, c[1], "load:era_clock") and flow.has_src(fn, c[0], "call:get_era"))):
                     # frozen domain fact (checked by HE.era-nonzero): prev_era is 0 iff the guard holds no hazard era and eras are never 0,
                     # so era == prev_era implies that a hazard era is held
-                    on_t = on_t + [(st.H, T)]
+                    if op == "==":
+                        on_t = on_t + [(st.H, T)]
+                    else:
+                        on_f = on_f + [(st.H, T)]
                 val = eq if op == "==" else ("not", eq)
                 if not pol:
                     val = self._negv(val)
@@ -250,25 +253,27 @@ class Exec:
         return val, on_t, on_f
 
     def _snapshot(self, st, nid):
-        """truth value of a boolean expression in the CURRENT state (T / F / Sym / ("not", Sym)); compound conditions become a fresh symbol"""
+        """(truth value, on_true, on_false) of a boolean expression in the CURRENT state; the value is T / F / Sym / ("not", Sym), compound
+        conditions become a fresh symbol; on_true / on_false are the facts that hold when the flag is later found true / false"""
         n = self.fn.nodes[nid]
         if n["k"] == "lit" and n.get("v") in (0, 1, True, False):
-            return T if n["v"] else F
+            return (T if n["v"] else F), [], []
         a, pol = flow.strip_cond(self.fn, nid, follow=False)
         an = self.fn.nodes[a]
         if an["k"] == "bin" and an.get("op") in ("&&", "||"):
-            return st.new("f")
+            return st.new("f"), [], []
         val, on_t, on_f = self.cond(st, nid)
-        if on_t or on_f:
-            return st.new("f")
+        # the facts refer to the values the state variables have NOW
+        on_t = [(st.val(x), st.val(y)) for x, y in on_t]
+        on_f = [(st.val(x), st.val(y)) for x, y in on_f]
         if isinstance(val, tuple):
             inner = st.val(val[1])
             if inner is T or inner is F:
-                return F if inner is T else T
+                return (F if inner is T else T), on_t, on_f
             if isinstance(inner, tuple):
-                return st.new("f")
-            return ("not", inner)
-        return st.val(val)
+                return st.new("f"), [], []
+            return ("not", inner), on_t, on_f
+        return st.val(val), on_t, on_f
 
     @staticmethod
     def _neg(v):
